@@ -195,3 +195,28 @@ pub fn permute<T: Clone>(data: &[T], codes: &[u16]) -> Vec<T> {
     }
     v
 }
+
+/// all permutations of 0..n (Heap's algorithm)
+pub fn permutations(n: usize) -> Vec<Vec<usize>> {
+    let mut out = vec![];
+    let mut a: Vec<usize> = (0..n).collect();
+    let mut c = vec![0usize; n];
+    out.push(a.clone());
+    let mut i = 0;
+    while i < n {
+        if c[i] < i {
+            if i % 2 == 0 {
+                a.swap(0, i);
+            } else {
+                a.swap(c[i], i);
+            }
+            out.push(a.clone());
+            c[i] += 1;
+            i = 0;
+        } else {
+            c[i] = 0;
+            i += 1;
+        }
+    }
+    out
+}
